@@ -20,6 +20,9 @@ struct Sel {
     t0: u64,
     /// SELECT response echoed every object with status SUCCESS
     valid: bool,
+    /// the SELECT bytes had not been sent before on this connection (so the outstation cannot take it
+    /// for a retransmission of an earlier request)
+    fresh: bool,
     /// what intervened since (first thing), None = nothing but exact repeats
     intervening: Option<String>,
     repeats: u32,
@@ -148,6 +151,7 @@ async fn run_history(a: &ShardArgs, idx: u64, steps: Vec<Step>, mut r: Rng, exha
     let mut last_objs: Vec<u8> = small_controls(&mut r);
     // request bytes -> response bytes, to recognise echoes of an earlier response (C05 behaviour)
     let mut answered: Vec<(Vec<u8>, Vec<u8>)> = vec![];
+    let mut sent_before: Vec<Vec<u8>> = vec![];
     let master = cfg.master_addr;
     let out_addr = cfg.out_addr;
 
@@ -196,6 +200,7 @@ async fn run_history(a: &ShardArgs, idx: u64, steps: Vec<Step>, mut r: Rng, exha
                 }
                 last_frag = None;
                 answered.clear();
+                sent_before.clear();
                 cx.hist.push(format!("t={} {label}", now));
                 continue;
             }
@@ -331,7 +336,7 @@ async fn run_history(a: &ShardArgs, idx: u64, steps: Vec<Step>, mut r: Rng, exha
                     }
                 }
             };
-            let strict = sel.as_ref().map(|s| s.repeats == 0).unwrap_or(true);
+            let strict = sel.as_ref().map(|s| s.repeats == 0 && s.fresh).unwrap_or(true);
             verdict = Some((j, why, strict));
         }
 
@@ -461,6 +466,7 @@ async fn run_history(a: &ShardArgs, idx: u64, steps: Vec<Step>, mut r: Rng, exha
                 objs,
                 t0: now,
                 valid,
+                fresh: !sent_before.contains(&frag),
                 intervening: None,
                 repeats: 0,
             });
@@ -472,6 +478,7 @@ async fn run_history(a: &ShardArgs, idx: u64, steps: Vec<Step>, mut r: Rng, exha
                 });
             }
         }
+        sent_before.push(frag.clone());
         if src == master && dest == out_addr {
             last_frag = Some(frag.clone());
         } else {
